@@ -84,7 +84,12 @@ def execute_plan(plan):
 
 
 def serve():
-    out = sys.stdout
+    # the protocol gets a private copy of fd 1; anything the system under
+    # test prints (python level or fd level) goes to /dev/null
+    out = os.fdopen(os.dup(1), 'w', buffering=1)
+    devnull = os.open(os.devnull, os.O_WRONLY)
+    os.dup2(devnull, 1)
+    sys.stdout = open(os.devnull, 'w')
     for line in sys.stdin:
         line = line.strip()
         if not line:
